@@ -110,6 +110,18 @@ class InputRepresentation:
             for name, f in (("evaluate_stress_tensor", st.evaluate_stress_tensor), ("evaluate_ehrenfest_force", st.evaluate_ehrenfest_force),
                             ("evaluate_ehrenfest_hessian", st.evaluate_ehrenfest_hessian)):
                 agree(name + "/points", lambda p: f(dm, basis, p, alpha=0.5, beta=0.25), pts[:3], _variants(pts[:3]))
+                # alpha, beta are real numbers: a Python int, and the float an array element or a numpy reduction yields
+                # (numpy.float64, a subclass of float), denote the same reals and must be answered alike - not rejected
+                for lab, (a_, b_) in (("numpy.float64", (np.float64(0.5), np.float64(0.25))), ("element-of-linspace", (np.linspace(0.0, 1.0, 3)[1], np.linspace(0.0, 1.0, 5)[1])),
+                                      ("int", (1, 0))):
+                    ref = np.asarray(f(dm, basis, pts[:3], alpha=float(a_), beta=float(b_)))
+                    try:
+                        got = np.asarray(f(dm, basis, pts[:3], alpha=a_, beta=b_))
+                    except Exception as e:  # noqa
+                        M.true("repr/%s/alpha-beta/%s" % (name, lab), False, "real scalars given as %s are rejected: %s: %s" % (lab, type(e).__name__, e))
+                        continue
+                    sc = max(1.0, float(np.max(np.abs(ref)))) if ref.size else 1.0
+                    M.true("repr/%s/alpha-beta/%s" % (name, lab), got.shape == ref.shape and bool(np.all(np.abs(got - ref) <= 1e-12 * sc)), "same result as for the Python float")
         elif what == "point_charge":
             pc = m["gbasis.integrals.point_charge"]
             q = np.array([1.0, -2.0, 3.0, 1.0, 2.0])
